@@ -225,21 +225,13 @@ pub fn check_transition(prev: &Snap, next: Option<&Snap>, op: &XOp, res: &Res, w
             }
             unchanged_except(prev, next, &[id], w, &what, false, false)
         }
-        (XOp::Scavenge, Res::OkN(n)) => {
-            let next = match next {
-                Some(nx) => nx,
-                None => {
-                    if *n != 0 {
-                        return bad("scavenge-count-wrong", format!("{} but nothing was written", what));
-                    }
-                    return Ok(());
-                }
-            };
-            let removed = prev.keys().filter(|k| !next.contains_key(*k)).count();
-            if removed != *n {
-                return bad("scavenge-count-wrong", format!("{} but {} leases disappeared", what, removed));
+        (XOp::Scavenge, Res::OkN(_)) => {
+            // The number a scavenge reports is not part of the property (it says nothing about it): only
+            // what the scavenge did to the lease set is judged.
+            match next {
+                Some(nx) => unchanged_except(prev, nx, &[], w, &what, true, true),
+                None => Ok(()),
             }
-            unchanged_except(prev, next, &[], w, &what, true, true)
         }
         (_, Res::ErrLeased) => bad("unexpected-error-kind", what),
         (_, Res::ErrRetries) | (_, Res::ErrOther(_)) => Ok(()),
@@ -411,6 +403,25 @@ pub fn exec_s3(case: &Case) -> Outcome {
             }
             snaps.push((v.effect_seq, s));
         }
+        // A DELETE of the lease file is a commit too: it replaces whatever version was current by
+        // "no leases" (a missing file reads as the empty set).  It is judged like any other commit,
+        // against the version it replaced - removing the file is fine if nothing live is lost.
+        struct Commit {
+            node: u32,
+            req_id: u64,
+            effect_seq: u64,
+            wall: DateTime<Utc>,
+        }
+        let mut commits: Vec<Commit> = versions.iter().map(|v| Commit { node: v.node, req_id: v.req_id, effect_seq: v.effect_seq, wall: v.wall }).collect();
+        for d in core.deletes() {
+            if d.path.ends_with("compaction-leases.json") && d.existed {
+                out.class("lease-file-deleted");
+                commits.push(Commit { node: d.node, req_id: d.req_id, effect_seq: d.effect_seq, wall: d.wall });
+                snaps.push((d.effect_seq, Snap::new()));
+            }
+        }
+        commits.sort_by_key(|c| c.effect_seq);
+        snaps.sort_by_key(|(e, _)| *e);
         let empty = Snap::new();
         let mut reclaim = false;
         let mut overlap_inflight = false;
@@ -421,7 +432,7 @@ pub fn exec_s3(case: &Case) -> Outcome {
                 Some(g) => (snaps.iter().rev().find(|(e, _)| *e <= g.seen_seq).map(|(_, s)| s).unwrap_or(&empty), g.wall),
                 None => (&empty, Utc::now()),
             };
-            let committed: Vec<&VersionRec> = versions.iter().filter(|v| v.node as usize == r.client && v.req_id >= r.from && v.req_id < r.to).collect();
+            let committed: Vec<&Commit> = commits.iter().filter(|v| v.node as usize == r.client && v.req_id >= r.from && v.req_id < r.to).collect();
             if committed.len() > 1 {
                 out.set_fail("more-than-one-commit", format!("client {} op {} committed {} versions", r.client, r.idx, committed.len()));
                 return out;
